@@ -2,6 +2,7 @@
 from __future__ import annotations
 
 import json
+import random
 
 import numpy as np
 
@@ -71,6 +72,9 @@ def check_case(ctx: Ctx, case: dict):
     if not rm.acyclic:
         ctx.count("cyclic")
         return
+    if not oracle.model_usable(rm, text):
+        ctx.count("models_undefined_everywhere")
+        return
     nontrivial = len(rm.inters) >= 1 and sum(sexp.size(e) for e in rm.assigns.values()) >= 6
     ctx.case(text, nontrivial, sample={"text": text} if nontrivial else None)
     for e in rm.assigns.values():
@@ -80,6 +84,12 @@ def check_case(ctx: Ctx, case: dict):
         code = common.py_code(ode)
         mod = common.exec_module(code)
     except Exception as ex:
+        probe = gen.GModel(comps=[""])
+        probe.states = {n: (None, "") for n in rm.states}
+        probe.params = {n: (None, "") for n in rm.params}
+        if not any(rm.usable(pt, 1) is not None for pt in gen.gen_inputs(random.Random(len(text)), probe, 4)):
+            ctx.count("models_undefined_everywhere")
+            return
         ctx.violate(f"C01/numpy/codegen-exception/{type(ex).__name__}",
                     f"accepted model, but NumPy code generation raised {type(ex).__name__}: {str(ex)[:120]}",
                     case={"text": text}, error=repr(ex))
@@ -105,7 +115,7 @@ def check_case(ctx: Ctx, case: dict):
         ctx.count("validated")
         validated = bool(v.get("verdict"))
         if not validated:
-            ctx.broke("validator", "checkRhs", json.dumps({"text": text, "verdict": v})[:1500])
+            ctx.broke("validator", "checkRhs", json.dumps({"text": text, "verdict": v}))
     # --- numeric oracle
     if points is None:
         g = gen.GModel(comps=[""])
@@ -175,7 +185,8 @@ def run(ctx: Ctx):
         if k % 5 == 0:
             cfg.depth = 5
         m = gen.gen_model(ctx.rng, cfg)
-        check_case(ctx, {"text": m.text(ctx.rng)})
+        with common.time_limit(ctx, 40):
+            check_case(ctx, {"text": m.text(ctx.rng)})
         if ctx.elapsed() > (1500 if ctx.thorough else 150):
             ctx.notes.append(f"time budget reached after {k + 1} models")
             break
